@@ -2,11 +2,12 @@
    Proved: whatever tree the decoder accepts — no well-formedness hypothesis on the
    input — the document it builds is well formed (coherent identifier maps, unique
    bundle keys), so it is a reachable document to which the C01 value-level round
-   trip theorems apply; the decoder's refusals are computed Examples.  Stability of
-   whole documents and agreement with the specification reader are decided per run
+   trip theorems apply; the decoder's refusals are computed Examples; and what the
+   writer emits for a container is read back record by record
+   (C11_written_container_reloads).  Stability of whole documents and agreement with the specification reader are decided per run
    (correspondence + oracle over generated and mutated corpus trees). *)
 From Coq Require Import String List ZArith.
-From Prov Require Import Str StrProofs Sexp Tables Nsm Values Record World WorldProofs Jtree Json JsonProofs JsonSpec.
+From Prov Require Import Str StrProofs Sexp Tables Nsm Values Record World WorldProofs Jtree Json JsonProofs JsonSpec JsonRecProofs JsonContProofs.
 Import ListNotations.
 Open Scope string_scope.
 
@@ -50,6 +51,20 @@ Example C11_record_array :
   | _ => 0
   end = 2.
 Proof. vm_compute. reflexivity. Qed.
+
+(* "writing d and loading the result gives d again", PROV-JSON, container level: what the writer emits for a
+   container whose records are rec_ok in the manager the prefix block re-creates is read back as one record per
+   written record (grouped order), each with its kind, identifier and every attribute value *)
+Theorem C11_written_container_reloads : forall par ft b0 b m,
+  match encode_prefixes (bns b) with
+  | [] => m = bns b0
+  | ps => decode_prefixes (bns b0) ps = OK m
+  end ->
+  Forall (rec_ok par ft m) (brecs b) ->
+  decode_container par ft b0 (encode_container b)
+  = (add_all (with_ns b0 m) (map renorm (grouped (brecs b))), OK tt).
+Proof. exact json_container_roundtrip. Qed.
+Print Assumptions C11_written_container_reloads.
 
 (* full statements, not yet proved *)
 Definition C11_json_stable_statement : Prop :=
